@@ -21,6 +21,7 @@
 #include <sys/epoll.h>
 #include <sys/eventfd.h>
 #include <sys/inotify.h>
+#include <sys/stat.h>
 #include <unistd.h>
 
 #include <cstring>
@@ -110,6 +111,27 @@ FsDropInService::~FsDropInService() {
 }
 
 void FsDropInService::tick() {
+  if (!drop_in_dir_deleted_) {
+    // The kernel reports IN_DELETE_SELF only when the last reference to the
+    // directory is gone, and a process that still holds a deleted file of it
+    // open keeps it referenced: the directory may have been removed and
+    // re-created long ago without a word from inotify. Check ourselves that
+    // the path still names the directory we watch.
+    struct stat st;
+    if (::stat(drop_in_dir_.c_str(), &st) != 0 || st.st_ino != watched_ino_ ||
+        st.st_dev != watched_dev_) {
+      std::lock_guard<std::mutex> lock(event_loop_mutex_);
+      if (!drop_in_dir_deleted_ && inotifyfd_ >= 0) {
+        OLOG << drop_in_dir_ << " is not the directory being watched any more";
+        for (const auto& file : loaded_files_) {
+          scheduleDropInRemove(file);
+        }
+        loaded_files_.clear();
+        deregisterDropInWatcherFromEventLoop();
+        drop_in_dir_deleted_ = true;
+      }
+    }
+  }
   if (drop_in_dir_deleted_) {
     // prepDropInWatcher() clears drop_in_dir_deleted_ itself, while it still
     // holds event_loop_mutex_. Clearing it here, after the lock is gone, can
@@ -172,13 +194,17 @@ int FsDropInService::prepDropInWatcherEventLoop(const std::string& dir) {
   // good. Watching the path once more returns the same descriptor only if it
   // still names the directory we watch; if it did at this point, the first
   // watch was in place before any removal and that removal will be reported.
-  if (::inotify_add_watch(inotifyfd_, dir.c_str(), mask) != inotifywd_) {
+  struct stat st;
+  if (::inotify_add_watch(inotifyfd_, dir.c_str(), mask) != inotifywd_ ||
+      ::stat(dir.c_str(), &st) != 0) {
     OLOG << dir << " was replaced while setting up its watch, will retry";
     ::close(inotifyfd_);
     inotifyfd_ = -1;
     inotifywd_ = -1;
     return 1;
   }
+  watched_dev_ = st.st_dev;
+  watched_ino_ = st.st_ino;
 
   // Add inotifyfd to epoll set
   struct epoll_event ev;
@@ -373,8 +399,10 @@ int FsDropInService::processEventLoop() {
         return 1;
       }
     } else {
-      OLOG << "Unknown fd=" << fd << " in event loop";
-      return 1;
+      // tick() may have dropped (and replaced) the watch between epoll_wait()
+      // and us taking the lock: an event for a descriptor we no longer own is
+      // stale, not fatal
+      OLOG << "Ignoring event for stale fd=" << fd << " in event loop";
     }
   }
 
